@@ -568,9 +568,21 @@ def rule_pu_channel(ctx):
     encp = "encoding"
     if encp not in fc.params():
         raise AnalysisError("open_with_codecs has no `encoding` parameter")
+    # names that stand for the encoding: the parameter, and locals that copy it / are copied back into it (an expanded helper works
+    # on its own copy of the parameter and hands the result back)
+    aliases = {encp}
+    copies = [(a_.targets[0].id, a_.value.id) for a_ in walk_shallow(fc.node) if isinstance(a_, ast.Assign) and len(a_.targets) == 1
+              and isinstance(a_.targets[0], ast.Name) and isinstance(a_.value, ast.Name)]
+    for _ in range(4):
+        for x, y in copies:
+            if x in aliases or y in aliases:
+                if (x in aliases) != (y in aliases) and (x.startswith("__ret_") or y.startswith("__ret_") or encp in x or encp in y):
+                    aliases |= {x, y}
     for node in cfg.nodes:
         a = node.ast
-        if node.kind == "stmt" and isinstance(a, ast.Assign) and any(isinstance(t, ast.Name) and t.id == encp for t in a.targets):
+        if node.kind == "stmt" and isinstance(a, ast.Assign) and any(isinstance(t, ast.Name) and t.id in aliases for t in a.targets):
+            if isinstance(a.value, ast.Name) and a.value.id in aliases:
+                continue          # a copy between two names of the encoding decides nothing
             n += 1
             site = "reader.open_with_codecs#encoding:=%s" % (unparse(a.value)[:30])
             if isinstance(a.value, ast.Constant) and isinstance(a.value.value, str) and "sig" in a.value.value:
@@ -593,16 +605,50 @@ def rule_pu_channel(ctx):
                     continue
                 conj = t.values if isinstance(t, ast.BoolOp) and isinstance(t.op, ast.And) else [t]
                 for c in conj:
-                    if isinstance(c, ast.UnaryOp) and isinstance(c.op, ast.Not) and isinstance(c.operand, ast.Name) and c.operand.id == encp:
+                    if isinstance(c, ast.UnaryOp) and isinstance(c.op, ast.Not) and isinstance(c.operand, ast.Name) and c.operand.id in aliases:
                         guarded = True
-                    if isinstance(c, ast.Compare) and isinstance(c.left, ast.Name) and c.left.id == encp and isinstance(c.ops[0], ast.Is) \
+                    if isinstance(c, ast.Compare) and isinstance(c.left, ast.Name) and c.left.id in aliases and isinstance(c.ops[0], ast.Is) \
                             and isinstance(c.comparators[0], ast.Constant) and c.comparators[0].value is None:
                         guarded = True
-            uses_old = any(isinstance(x, ast.Name) and x.id == encp for x in ast.walk(a.value))
+            uses_old = any(isinstance(x, ast.Name) and x.id in aliases for x in ast.walk(a.value))
+            if not guarded:
+                # the new value is computed by something that is given the caller's encoding (a candidate generator, a chooser
+                # function): the precedence is decided in there
+                def in_call_args(e):
+                    return any(isinstance(c_, ast.Call) and any(isinstance(y, ast.Name) and y.id in aliases
+                                                                for a_ in list(c_.args) + [k.value for k in c_.keywords] for y in ast.walk(a_))
+                               for c_ in ast.walk(e))
+                feeds = in_call_args(a.value)
+                for x in ast.walk(a.value):
+                    if isinstance(x, ast.Name) and x.id not in aliases:
+                        for a2 in walk_shallow(fc.node):
+                            if isinstance(a2, ast.Assign) and any(isinstance(t, ast.Name) and t.id == x.id for t in a2.targets) and in_call_args(a2.value):
+                                feeds = True
+                if feeds and any(isinstance(x, ast.Call) for x in ast.walk(a.value)):
+                    ctx.undecided("PU.CHANNEL", site, fc, a, "`%s` derives the encoding from a computation that is handed the caller's "
+                                  "encoding: which of them wins is decided inside it" % unparse(a)[:80])
+                    continue
             ctx.check(guarded, "PU.CHANNEL", site, fc, a,
                       "a detected encoding is used only when the caller gave none (`not encoding`)",
                       "`%s` can replace an encoding the caller named explicitly (the assignment is not confined to `not "
                       "encoding`): a mis-detected codec garbles every non-ASCII header character" % unparse(a))
+    # the bytes examined for the BOM are the start of the file, however the sampling options are set
+    prov_c = Provenance(cfg)
+    fname = fc.params()[0]
+    for node in cfg.nodes:
+        if node.kind != "test" or "BOM" not in ast.unparse(node.ast):
+            continue
+        atoms = set()
+        for x in ast.walk(node.ast):
+            if isinstance(x, ast.Name) and isinstance(x.ctx, ast.Load) and x.id not in ("codecs",):
+                atoms |= set(prov_c.atoms(x, node.id))
+        opts = sorted({a_[1] for a_ in atoms if a_[0] == "param" and a_[1] != fname})
+        n += 1
+        ctx.check(not opts, "PU.CHANNEL", "reader.open_with_codecs#bom-sample", fc, node.ast,
+                  "the bytes tested for a BOM do not depend on any option",
+                  "the bytes tested for the BOM are read in a way that depends on the option(s) %s: with a sample shorter than the BOM "
+                  "(autodetect_encoding_chars=1 or 2) a UTF-8 BOM is not seen, stays glued to the first line, and the same text read from "
+                  "a file and from a string differ" % opts)
     # encoding / errors reach io.open unchanged
     opens = [c for c in walk_shallow(fc.node) if isinstance(c, ast.Call) and ast.unparse(c.func) in ("io.open", "open", "codecs.open")
              and any(k.arg == "encoding" for k in c.keywords)]
